@@ -25,6 +25,7 @@ type segment struct {
 	sequenceID uint64 // Logical monotonically increasing segment identifier.
 	name       string
 	meta       *segmentMeta
+	dirty      bool // The segment has records not yet flushed by Sync.
 }
 
 func segmentName(id uint16, sequenceID uint64) string {
